@@ -358,7 +358,7 @@ def usages(case):
 # validation: one growing table, execution order
 # --------------------------------------------------------------------------------------------------
 class Entry:
-    __slots__ = ('type', 'refs', 'phase', 'builtin', 'value', 'hds', 'rx', 'reach')
+    __slots__ = ('type', 'refs', 'phase', 'builtin', 'value', 'reach')
 
     def __init__(self, type_, refs, phase, builtin=False):
         self.type = type_
@@ -366,8 +366,6 @@ class Entry:
         self.phase = phase
         self.builtin = builtin
         self.value = None
-        self.hds = False  # data value derived from a path in the home directory structure (defect model KF-C08-1)
-        self.rx = False  # logic value that contains a REGEX built from such a value (defect model KF-C08-1)
         self.reach = frozenset()  # names of the probes / shell outputs that using the value can run
 
 
@@ -489,7 +487,6 @@ class Outcome:
         self.shell = {}  # shell output name -> text | UNKNOWN  (what the `$ printf` lines have appended)
         self.unknown_probes = set()  # probes / shell outputs whose number of invocations the manual does not fix
         self.soft = []  # value dependent validation that is not about symbols (INTEGER not an int, invalid REGEX, ...)
-        self.kf1 = []  # (phase, index|None) of executed instructions that validate a REGEX built from a home-dir path
 
 
 def use_name(phase, idx) -> str:
@@ -516,14 +513,31 @@ def _join(base: str, suffix: str) -> str:
     return str(PurePosixPath(base) / suffix)
 
 
+_PURE_OPS = ('upper', 'lower', 'strip')
+
+
+def replace_lines(regex, replacement, text):
+    """`replace REGEX STRING`: "Replaces every string matching REGEX (on a single line) with STRING. [...] Every line
+    ends with "\\n", except the last line, which may or may not end with "\\n"" (the "\\n" belongs to the line unless
+    -preserve-new-lines is given).  REGEX / STRING: Python syntax (`help syntax REGEX`).  -> text | UNKNOWN"""
+    if regex is UNKNOWN or replacement is UNKNOWN or text is UNKNOWN:
+        return UNKNOWN
+    try:
+        pat = re.compile(regex)
+        if text == '' and pat.search('') is not None:
+            return UNKNOWN  # does a text without characters have a line on which the empty string matches?  not said
+        lines = re.findall(r'[^\n]*\n|[^\n]+', text)
+        return ''.join(pat.sub(replacement, line) for line in lines)
+    except (re.error, IndexError):
+        return UNKNOWN  # invalid REGEX / STRING: validated by value (see soft_scan)
+
+
 class _Evaluator:
     def __init__(self, table, roots, out: Outcome):
         self.table = table
         self.roots = roots
         self.out = out
-        self.regexes = []  # REGEX strings met by soft_scan since the last reset
         self.env = {}  # C08_* environment variables set so far
-        self.prog_out = False  # the text just produced is the unprocessed output of a program
 
     # ---- data ----
     def sym_as_str(self, name):
@@ -636,7 +650,7 @@ class _Evaluator:
         if 'c' not in e and 'ref' in e:
             return list(self.table[e['ref']].value)
         if 'lit' in e:
-            return {'identity': [], 'upper': ['upper'], 'lower': ['lower']}.get(e['lit'], [('opaque', frozenset())])
+            return {'identity': [], 'upper': ['upper'], 'lower': ['lower'], 'strip': ['strip']}[e['lit']]
         if 'op' in e:
             if e['op'] == 'paren':
                 return self.tt_(e['a'])
@@ -644,16 +658,23 @@ class _Evaluator:
                 return self.tt_(e['a']) + self.tt_(e['b'])
         if e.get('c') == 'run':
             return [('run', self.program_(e['p']))]
-        return [('opaque', self.reach(e))]  # filter / replace / strip: outside the property
+        if e.get('c') == 'replace':
+            # "Replaces every string matching REGEX (on a single line) with STRING": the REGEX and the STRING are
+            # strings - references in them are substituted like everywhere else
+            return [('replace', self.str_(e['r']), self.str_(e['s']))]
+        return [('opaque', self.reach(e))]  # filter: the semantics of matchers are outside the property
 
     def apply_tt(self, ops, text):
         for op in ops:
             if op == 'upper':
                 text = text if text is UNKNOWN else text.upper()
-                self.prog_out = False
             elif op == 'lower':
                 text = text if text is UNKNOWN else text.lower()
-                self.prog_out = False
+            elif op == 'strip':
+                # "Removes all whitespace at the beginning and end of the text"
+                text = text if text is UNKNOWN else text.strip()
+            elif op[0] == 'replace':
+                text = replace_lines(op[1], op[2], text)
             elif op[0] == 'run':
                 # "run PROGRAM": the text is given as stdin (appended to the stdin the program defines); the
                 # result is the program's output
@@ -668,7 +689,6 @@ class _Evaluator:
         if ts.get('c') == 'pgm':
             base = self.run_program(self.program_(ts['p']), consume=True)
         else:
-            self.prog_out = False
             name = None
             if 'ref' in ts:
                 name = ts['ref']
@@ -706,11 +726,6 @@ class _Evaluator:
             part = self.ts_(ts)
             stdin = UNKNOWN if (stdin is UNKNOWN or part is UNKNOWN) else stdin + part
         if extra_stdin is not None:
-            if pv['stdin'] and self.prog_out:
-                # side finding (C10/C14, not a symbol matter): a program's own stdin followed by a text that is the
-                # output of another program arrives in the opposite order (unflushed buffer + sub-process writing to
-                # the same file in _ConcatStringSourceContents.write_to) - the order is not checked here
-                stdin = UNKNOWN
             stdin = UNKNOWN if (stdin is UNKNOWN or extra_stdin is UNKNOWN) else stdin + extra_stdin
         name = pv['o']
         if pv['kind'] == 'probe':
@@ -727,12 +742,11 @@ class _Evaluator:
             else:
                 self.out.shell[name] = prev + pv['text'] + '|'
             output = ''
-        self.prog_out = True
         if consume:
             return self.apply_tt(pv['tt'], output)
         for op in pv['tt']:
             # is the output of a program that nobody reads transformed?  not fixed by the manual
-            if op not in ('upper', 'lower'):
+            if op not in _PURE_OPS and op[0] != 'replace':
                 self.out.unknown_probes.update(self.reach_of_op(op))
         return output
 
@@ -744,7 +758,7 @@ class _Evaluator:
         for ts in pv['stdin']:
             acc.update(self.reach(ts))
         for o in pv['tt']:
-            if o not in ('upper', 'lower'):
+            if o not in _PURE_OPS and o[0] != 'replace':
                 acc.update(self.reach_of_op(o))
         return frozenset(acc)
 
@@ -813,7 +827,6 @@ class _Evaluator:
         elif c == 'cmp':
             self.soft_int(e['i'])
         elif c in ('matches', 'replace') and t in ('text-matcher', 'text-transformer'):
-            self.regexes.append(e['r'])
             v = self.str_(e['r'])
             ok = v is not UNKNOWN
             if ok:
@@ -886,22 +899,9 @@ def evaluate(case, roots, reading=None) -> Outcome:
     ev = _Evaluator(table, roots, out)
     act_stdin = []  # texts given by `stdin = TEXT-SOURCE` in setup
 
-    for n in ('EXACTLY_HOME', 'EXACTLY_ACT_HOME'):
-        table[n].hds = True
-
-    def regex_taint(refs):
-        """KF-C08-1: does the construct just scanned validate a REGEX that is built from a home-dir path?"""
-        own = any(table[name].hds for rx in ev.regexes for name, _ in _str_refs(rx))
-        via = any(table[name].rx for name, _ in refs)
-        ev.regexes = []
-        return own or via
-
     for phase, idx, item in usages(case):
         if phase == 'act':
-            ev.regexes = []
             ev.soft_scan('program', case['act'])
-            if regex_taint(_program_refs(case['act'])):
-                out.kf1.append(('act', None))
             extra = None
             if len(act_stdin) == 1:
                 extra = act_stdin[0]
@@ -914,17 +914,11 @@ def evaluate(case, roots, reading=None) -> Outcome:
             ev.soft_int(item['i'])
             continue
         if k != 'def':
-            ev.regexes = []
             ev.soft_scan(*_item_expr(item))
-            if regex_taint(item_refs(item)):
-                out.kf1.append((phase, idx))
         if k == 'def':
             t, v = item['t'], item['v']
             ent = Entry(t, [r for r, _ in value_refs(t, v)], phase)
-            if t in DATA_TYPES:
-                ent.hds = (any(table[r].hds for r in ent.refs)
-                           or (t == 'path' and v['rel'] in ('home', 'act-home')))
-            else:
+            if t not in DATA_TYPES:
                 ent.reach = ev.reach(v)
             if t == 'string':
                 ent.value = ev.str_(v)
@@ -940,9 +934,7 @@ def evaluate(case, roots, reading=None) -> Outcome:
                 ent.value = ev.program_(v)
             else:
                 ent.value = None
-            ev.regexes = []
             ev.soft_scan(t, v)
-            ent.rx = regex_taint(value_refs(t, v)) if t not in DATA_TYPES else False
             table[item['n']] = ent
         elif k == 'file':
             out.files[use_name(phase, idx) + '.txt'] = ev.ts_(item['s'])
